@@ -49,7 +49,8 @@ def floors(tier):
     n = N_PROG[tier]
     return {"evals": n * 4, "distinct": max(2, n // 4),
             "counters": {"model_calls_cse_on": n * 2, "model_calls_cse_off": n * 2,
-                         "programs_with_angle_wrap_idioms": n // 8}}
+                         "programs_with_angle_wrap_idioms": n // 8,
+                         "programs_with_proactive_simplify": n // 8}}
 
 
 def setup_worker(ctx):
@@ -60,8 +61,12 @@ def gen_defn(rng, tier, wraps=None):
     depth = 3 if tier == "quick" else rng.choice([3, 3, 4])
     if wraps is None:
         wraps = rng.random() < 0.5
-    return gen.program(rng, n_sensor=(0, 0), depth=depth, cpp_safe=False,
-                       dt_names=("dt", "dt", "T_s", "h_step"), wraps=wraps)
+    d = gen.program(rng, n_sensor=(0, 0), depth=depth, cpp_safe=False,
+                    dt_names=("dt", "dt", "T_s", "h_step"), wraps=wraps)
+    if rng.random() < 0.25:
+        # the definition-time option of ui.Model that rewrites the expressions before compilation
+        d["proactive_simplify"] = True
+    return d
 
 
 def run_probe(unit, ctx):
@@ -110,6 +115,8 @@ def run_unit(unit, ctx):
     defn = gen_defn(rng, ctx["tier"], unit.get("wraps"))
     if any(w in __import__("json").dumps(defn["model"]) for w in ("asinsin", "acoscos", "atantan")):
         R.stats.inc("programs_with_angle_wrap_idioms")
+    if defn.get("proactive_simplify"):
+        R.stats.inc("programs_with_proactive_simplify")
     fp = gen.fingerprint(defn)
     R.fps_all.append(fp)
     if gen.nontrivial_program(defn):
